@@ -20,6 +20,7 @@ META = {
     "not_decided": ["element equality being RFC JSON equality (Value: PartialEq distinguishes 1 and 1.0)"],
 }
 META["explanation"] += ' R3 also: a missing argument is handed over as no element. R4 the engine never mentions an extension name outside the Queryable implementations and builds TestFunction::Custom from the name as written.'
+META["explanation"] += ' R5 literals handed to extension functions denote exactly the value written.'
 
 QT = "crate::query::queryable::Queryable"
 VAL = "serde_json::value::Value"
